@@ -221,3 +221,74 @@ extern "C" void h_split(int ver, int interleave) {
 	check_partitions(nif, shape, ver, shapeTris, true);
 	sym_reach("end");
 }
+
+// ---- C17 (partition labels): labels set with SetShapePartitions are read back, also after a vertex deletion
+extern "C" void h_partlabels(int ver, int nparts, int delVertex) {
+	NifFile nif;
+	// a strip-like mesh: 6 vertices, 4 triangles (concrete), so that labels are the only symbolic input
+	std::vector<Triangle> tris = {Triangle(0, 1, 2), Triangle(1, 3, 2), Triangle(2, 3, 4), Triangle(3, 5, 4)};
+	NiShape* shape = build_skinned(nif, ver, 6, tris, 2, 2, false);
+	nif.UpdateSkinPartitions(shape);
+	NiVector<BSDismemberSkinInstance::PartitionInfo> pinfo;
+	std::vector<int> tp;
+	nif.GetShapePartitions(shape, pinfo, tp);
+	while ((int) pinfo.size() < nparts) {
+		BSDismemberSkinInstance::PartitionInfo pi;
+		pi.flags = PF_EDITOR_VISIBLE;
+		pi.partID = (uint16_t) (30 + pinfo.size());
+		pinfo.push_back(pi);
+	}
+	std::vector<int> labels(tris.size());
+	for (size_t i = 0; i < labels.size(); i++) {
+		labels[i] = (int) sym_u32("lab");
+		sym_assume(labels[i] >= 0 && labels[i] < nparts);
+	}
+	nif.SetShapePartitions(shape, pinfo, labels);
+	nif.UpdateSkinPartitions(shape);
+	sym_reach("built");
+	NiVector<BSDismemberSkinInstance::PartitionInfo> pinfo2;
+	std::vector<int> out;
+	nif.GetShapePartitions(shape, pinfo2, out);
+	std::vector<Triangle> cur;
+	shape->GetTriangles(cur);
+	sym_assert(out.size() == cur.size() && cur.size() == tris.size(), "C17-part-count: label list / triangle count changed");
+	// labels follow their triangle (triangles may have been re-ordered: match by corners up to rotation)
+	for (size_t i = 0; i < tris.size(); i++)
+		for (size_t j = 0; j < cur.size() && j < out.size(); j++)
+			if (same_tri(rot(tris[i]), rot(cur[j])))
+				sym_assert(out[j] == labels[i], "C17-part-roundtrip: partition label read back differs from the label set");
+	if (delVertex >= 0) {
+		std::vector<uint16_t> del = {(uint16_t) delVertex};
+		nif.DeleteVertsForShape(shape, del);
+		std::vector<Triangle> after;
+		shape->GetTriangles(after);
+		NiVector<BSDismemberSkinInstance::PartitionInfo> pinfo3;
+		std::vector<int> out3;
+		nif.GetShapePartitions(shape, pinfo3, out3);
+		sym_assert(out3.size() == after.size(), "C17-part-count-del: label list length differs from the triangle count after deletion");
+		// surviving triangles keep their labels up to the order-preserving renumbering caused by removed empty partitions
+		std::vector<int> oldLab, newLab;
+		for (size_t i = 0; i < tris.size(); i++) {
+			if (tris[i].p1 == delVertex || tris[i].p2 == delVertex || tris[i].p3 == delVertex)
+				continue;
+			auto ni = [&](uint16_t v) { return (uint16_t) (v > delVertex ? v - 1 : v); };
+			Triangle want(ni(tris[i].p1), ni(tris[i].p2), ni(tris[i].p3));
+			int found = -1;
+			for (size_t j = 0; j < after.size(); j++)
+				if (same_tri(rot(want), rot(after[j])))
+					found = (int) j;
+			sym_assert(found >= 0, "C17-part-lost: a triangle without the deleted vertex disappeared");
+			if (found >= 0 && found < (int) out3.size()) {
+				sym_assert(out3[found] >= 0 && out3[found] < (int) pinfo3.size(), "C17-part-cover-del: a surviving triangle is in no partition after deletion");
+				oldLab.push_back(labels[i]);
+				newLab.push_back(out3[found]);
+			}
+		}
+		for (size_t a = 0; a < oldLab.size(); a++)
+			for (size_t b = a + 1; b < oldLab.size(); b++) {
+				sym_assert((oldLab[a] == oldLab[b]) == (newLab[a] == newLab[b]), "C17-part-regroup: triangles changed partition grouping after vertex deletion");
+				sym_assert((oldLab[a] < oldLab[b]) == (newLab[a] < newLab[b]), "C17-part-order: partition labels are not an order-preserving renumbering after vertex deletion");
+			}
+	}
+	sym_reach("end");
+}
